@@ -3,10 +3,14 @@
 // of length <= 5 (6) over a boundary-byte alphabet and structured longer strings, every input stored flush against the
 // end of its allocation and every output buffer sized exactly to the function's contract (ASan = memory oracle).
 // Reference side: plain C++ encoder / strict decoder (std:: only), cross-checked against python3 codecs on every scalar.
+// Every limit argument n of the raw conversions is made binding (1 <= n < length) and once larger than the text; the String's text is compared
+// after the const dataw(); iteration runs through the Enumerator and through range-for; equalsNocase is probed above the case tables at the
+// offsets of Unicode's case pairs and on python's case pairs; the locale bridge is called in the "C" and "C.UTF-8" locales (safety clause only).
 #include <asl/String.h>
 #include <asl/Array.h>
 #include <ctype.h>
 #include <wchar.h>
+#include <locale.h>
 #include <limits.h>
 #include <signal.h>
 #include <sys/time.h>
@@ -64,7 +68,9 @@ static bool is_scalar(long long c) { return c >= 0 && c <= 0x10FFFF && !(c >= 0x
 static int C_EVAL, C_DISTINCT, C_OPS, C_SUPPRESSED, C_PRUNED_COUNT;
 static int W_LEN[5], W_VALID, W_ILL, W_TR2, W_TR3, W_TR4, W_OVERLONG, W_SURR8, W_BADLEAD, W_STRAYCONT, W_NUL, W_INLINE, W_HEAPEXACT, W_HEAPSLACK,
 	W_CASE_TABLE, W_CASE_IDENT, W_CASE_SHRINK, W_CASE_CHANGED, W_ASCII_CASE, W_NC_TRUE, W_NC_FALSE, W_NC_TRUE_DISTINCT, W_PAIR16, W_DATAW_REALLOC, W_DATAW_MALLOC, W_DATAW_INLINE,
-	W_COUNT_PRED, W_LIMIT_CUT, W_SELFTEST, W_W16_ILL, W_I32_NONSCALAR;
+	W_COUNT_PRED, W_LIMIT_CUT, W_SELFTEST, W_W16_ILL, W_I32_NONSCALAR,
+	W_LIMIT16_CUT, W_LIMIT16_CUT_UNITS, W_LIMIT32_CUT, W_N_BEYOND, W_DATAW_INTACT, W_DATAW_INTACT4, W_RANGEFOR, W_RANGEFOR_EMPTY,
+	W_LOC_CALLS[2], W_LOC_NONASCII[2], W_LOC_NONEMPTY[2], W_LOC_ASCII_IDENT, W_LOC_ASCII_OTHER, W_NC_ABOVE, W_NC_ABOVE_EQ, W_NC_PY, W_NC_PY_EQ, W_MID;
 
 static const char* SIG_COUNT = "count_overread_2byte_lead_at_end";
 
@@ -163,6 +169,7 @@ static Feat witnesses(const std::string& b, bool valid, const Cps& cps) {
 }
 
 // ---------------------------------------------------------------- the raw conversion functions on a NUL-free byte string
+static bool g_skip_nbeyond3 = false; // quick tier, family (c): the n-beyond-the-terminator calls are made for lengths <= 2 only (length 3..6 comes from the alphabet families)
 static void check_raw(const std::string& e, bool valid, const Cps& cps) {
 	const size_t L = e.size();
 	vfx::FlushBuf in(e);                       // malloc(L+1): a read past the NUL is a heap-buffer-overflow
@@ -185,6 +192,13 @@ static void check_raw(const std::string& e, bool valid, const Cps& cps) {
 			bool t2 = trip("utf32toUtf8", e);
 			if (!t2 && (r2 < 0 || r2 > 4 * m || b8.p[r2] != 0)) bad("utf32toUtf8_result", fmt("utf32toUtf8(%s, n=%d) returned %d: not a terminated result inside 4n+1 bytes", arr_str(i32.p, m).c_str(), m, r2));
 			else if (!t2 && valid && std::string(b8.p, r2) != e) bad("utf32_roundtrip", "UTF-8 -> UTF-32 -> UTF-8 of " + show(e) + " gave " + show(std::string(b8.p, r2)));
+		}
+		if (!t && L >= 1 && L <= 8 && !(g_skip_nbeyond3 && L == 3) && r >= 0 && (size_t)r <= L) { // n beyond the text (the unit test's shape): the terminator, not n, must end the conversion: same result in the same L+1 elements
+			Out<int> ob(L + 1);
+			int rb = utf8toUtf32(in.p, ob.p, (int)L + 7);
+			vf::add(W_N_BEYOND);
+			if (!trip("utf8toUtf32", e) && (rb != r || memcmp(ob.p, o.p, ((size_t)r + 1) * sizeof(int)) != 0))
+				bad("utf8toUtf32_result", fmt("utf8toUtf32(%s, n=%d) returned %d, but %d with n=%d: a limit beyond the terminator changed the result", show(e).c_str(), (int)L + 7, rb, r, (int)L));
 		}
 		if (L >= 2 && L <= 8) // limited n: at most k code points may be written (+ terminator)
 			for (size_t k = 1; k < L; k++) {
@@ -217,6 +231,21 @@ static void check_raw(const std::string& e, bool valid, const Cps& cps) {
 			bool t2 = trip("utf16toUtf8", e);
 			if (!t2 && (r2 < 0 || r2 > 4 * m || b8.p[r2] != 0)) bad("utf16toUtf8_result", fmt("utf16toUtf8 of the %d units made from %s returned %d: not a terminated result inside 4n+1 bytes", m, show(e).c_str(), r2));
 			else if (!t2 && valid && std::string(b8.p, r2) != e) bad("utf16_roundtrip", "UTF-8 -> UTF-16 -> UTF-8 of " + show(e) + " gave " + show(std::string(b8.p, r2)));
+			if (!t2 && m >= 2 && m <= 8) // limited n (Xdl's unicode escapes, fixW): at most k characters of <= 4 bytes each may be written (+ terminator)
+				for (int k = 1; k < m; k++) {
+					Out<char> bk(4 * (size_t)k + 1);
+					int rk = utf16toUtf8(wi.p, bk.p, k);
+					if (trip("utf16toUtf8", e)) break;
+					if (rk < 0 || rk > 4 * k || bk.p[rk] != 0) { bad("utf16toUtf8_result", fmt("utf16toUtf8 of the %d units made from %s with n=%d returned %d: not a terminated result inside 4n+1 = %d bytes", m, show(e).c_str(), k, rk, 4 * k + 1)); break; }
+					if (valid && (size_t)k < cps.size()) vf::add(W_LIMIT16_CUT);
+					if (valid && ((size_t)rk > L || memcmp(bk.p, e.data(), rk) != 0)) { bad("utf16toUtf8_value", fmt("utf16toUtf8 of the %d units made from %s with n=%d gave ", m, show(e).c_str(), k) + show(std::string(bk.p, rk)) + ": not a prefix of the text"); break; }
+				}
+		}
+		if (!t && L >= 1 && L <= 8 && !(g_skip_nbeyond3 && L == 3) && r >= 0 && (size_t)r <= L) { // n beyond the text: same result in the same L+1 units
+			Out<wchar_t> wb(L + 1);
+			int rb = utf8toUtf16(in.p, wb.p, (int)L + 7);
+			if (!trip("utf8toUtf16", e) && (rb != r || memcmp(wb.p, w.p, ((size_t)r + 1) * sizeof(wchar_t)) != 0))
+				bad("utf8toUtf16_result", fmt("utf8toUtf16(%s, n=%d) returned %d, but %d with n=%d: a limit beyond the terminator changed the result", show(e).c_str(), (int)L + 7, rb, r, (int)L));
 		}
 		if (L >= 2 && L <= 8)
 			for (size_t k = 1; k < L; k++) {
@@ -238,7 +267,16 @@ static void check_raw(const std::string& e, bool valid, const Cps& cps) {
 		int r = utf32toUtf8(i32.p, b8.p, (int)n);
 		bool t = trip("utf32toUtf8", e);
 		if (!t && (r != (int)L || b8.p[L] != 0 || memcmp(b8.p, e.data(), L) != 0)) bad("utf32toUtf8_value", "utf32toUtf8(" + cps_str(cps) + ") = " + show(std::string(b8.p, r > 0 && r <= (int)(4 * n) ? r : 0)) + fmt(" (returned %d), standard encoding is ", r) + show(e));
-		if (!t && n >= 2 && n <= 4) { // limited n = 1: only the first code point, inside 4*1+1 bytes
+		if (!t && n >= 3 && n <= 8) // limited 1 < k < n: at most k code points of <= 4 bytes each may be written (+ terminator)
+			for (size_t k = 2; k < n; k++) {
+				Out<char> bk(4 * k + 1);
+				int rk = utf32toUtf8(i32.p, bk.p, (int)k);
+				if (trip("utf32toUtf8", e)) break;
+				vf::add(W_LIMIT32_CUT);
+				if (rk < 0 || (size_t)rk > 4 * k || bk.p[rk] != 0) { bad("utf32toUtf8_result", fmt("utf32toUtf8(%s, n=%d) returned %d: not a terminated result inside 4n+1 = %d bytes", cps_str(cps).c_str(), (int)k, rk, (int)(4 * k + 1))); break; }
+				if ((size_t)rk > L || memcmp(bk.p, e.data(), rk) != 0) { bad("utf32toUtf8_value", fmt("utf32toUtf8(%s, n=%d) = ", cps_str(cps).c_str(), (int)k) + show(std::string(bk.p, rk)) + ": not a prefix of the standard encoding " + show(e)); break; }
+			}
+		if (!t && n >= 2 && n <= 8) { // limited n = 1: only the first code point, inside 4*1+1 bytes
 			Out<char> b1(5);
 			int r1 = utf32toUtf8(i32.p, b1.p, 1);
 			std::string first = enc8(cps[0]);
@@ -250,6 +288,7 @@ static void check_raw(const std::string& e, bool valid, const Cps& cps) {
 // ---------------------------------------------------------------- String methods on an arbitrary byte string (may contain NULs: String(ptr, n))
 static int count_confirmed = 0;
 static bool confirm_mode = false; // sacrificial run that confirms a known finding still fails
+static bool g_rangefor = true;    // quick tier: range-for only on the offset-0 instance of a byte string (the left-padded replays share operator* with the Enumerator loop above)
 
 static void check_string(const std::string& full, bool valid, const Cps& cps, const Feat& ft) {
 	const size_t L = full.size();
@@ -301,6 +340,18 @@ static void check_string(const std::string& full, bool valid, const Cps& cps, co
 				else if (valid && it != cps) bad("iteration_value", "code-point iteration over " + show(full) + " gave " + cps_str(it) + ", expected " + cps_str(cps));
 			}
 		}
+#ifdef ASL_HAVE_RANGEFOR
+		// the same through range-for: begin(String) / end(String) / Enumerator::operator!=
+		if (on("rangefor") && g_rangefor) {
+			Cps it; size_t steps = 0; bool runaway = false;
+			for (int cp : s) { it.push_back(cp); if (++steps > L) { runaway = true; break; } }
+			if (!trip("rangefor", full)) {
+				if (steps) vf::add(W_RANGEFOR); else vf::add(W_RANGEFOR_EMPTY);
+				if (runaway) bad("iteration_runaway", "for (int c : s) over " + show(full) + fmt(" did not stop inside the string (%d steps)", (int)steps));
+				else if (valid && it != cps) bad("rangefor_value", "for (int c : s) over " + show(full) + " gave " + cps_str(it) + ", expected " + cps_str(cps));
+			}
+		}
+#endif
 		// case mapping: never longer than the input; ASCII as in the C locale
 		bool okcase = false;
 		if (on("toUpperCase") && on("toLowerCase")) {
@@ -369,6 +420,10 @@ static void check_string(const std::string& full, bool valid, const Cps& cps, co
 		if (c._size >= 1024) vf::add(W_DATAW_REALLOC); else if (c._size > 0) vf::add(W_DATAW_MALLOC); else vf::add(W_DATAW_INLINE);
 		const wchar_t* w = c.dataw();
 		if (trip("dataw", full)) return;
+		// dataw() is const: the text itself (and its terminator) must still be there, in front of the scratch area
+		bool lenok = c.length() == (int)L && c.length() < c.cap();
+		if (!lenok || memcmp(*c, full.data(), L) != 0 || (*c)[L] != 0) { bad("dataw_clobbers_text", "after dataw() on " + show(full) + (lenok ? " the String reads " + show(std::string(*c, L + 1)) + " (text and terminator expected unchanged)" : fmt(" the String has length %d in a buffer of %d", c.length(), c.cap()))); return; }
+		vf::add(W_DATAW_INTACT); if (L % 4 == 0) vf::add(W_DATAW_INTACT4);
 		size_t wl = 0;
 		while (wl <= L && w[wl]) wl++;
 		if (trip("dataw", full)) return;
@@ -408,6 +463,42 @@ static void check_string(const std::string& full, bool valid, const Cps& cps, co
 	}
 }
 
+// ---------------------------------------------------------------- the locale bridge: utf8ToLocal / localToUtf8 / String::fromLocal / toLocal
+// Each runs a UTF-8 <-> UTF-16 conversion and the platform's wcstombs / mbstowcs through buffers it sizes itself.  Demanded (safety clause only):
+// termination, no access outside any buffer (ASan), and a result String that lies inside its own buffer and is terminated at its length.  The values
+// are the platform codec's business and are only counted.  loc: 0 = "C" locale (non-ASCII bytes are unconvertible: the codec's error path),
+// 1 = "C.UTF-8" (multibyte results; glibc's wchar_t carries UCS-4 there, again only safety is demanded).
+static String f_utf8ToLocal(const String& a) { return utf8ToLocal(a); }
+static String f_localToUtf8(const String& a) { return localToUtf8(a); }
+static String f_fromLocal(const String& a) { return String::fromLocal(a); }
+static String f_toLocal(const String& a) { String c = a; return c.toLocal(); } // toLocal() goes through dataw(), which moves the (const) String's buffer: use a private copy
+static const char* LOCNAME[2] = { "C", "C.UTF-8" };
+static bool set_loc(int loc) { return setlocale(LC_CTYPE, LOCNAME[loc]) != 0; }
+static void check_locale_bridge(const std::string& full, int loc) {
+	begin_case((loc ? "l8:" : "lc:") + vf::hex(full));
+	vf::add(C_EVAL);
+	bool ascii = true; for (size_t i = 0; i < full.size(); i++) if ((unsigned char)full[i] == 0 || (unsigned char)full[i] > 127) ascii = false;
+	typedef String (*Fn)(const String&);
+	static const struct { const char* op; Fn f; bool flush; } LOC[4] = { { "utf8ToLocal", &f_utf8ToLocal, true }, { "localToUtf8", &f_localToUtf8, true }, { "fromLocal", &f_fromLocal, true }, { "toLocal", &f_toLocal, false } };
+	String s = vfx::A(full);
+	for (int i = 0; i < 4; i++) {
+		if (!on(LOC[i].op)) continue;
+		std::string crash = std::string(LOC[i].op) + "_crash";
+		vf::cur_sig(crash.c_str());
+		String r;
+		if (LOC[i].flush) { vfx::Flush fl(s); r = LOC[i].f(s); } else r = LOC[i].f(s);
+		vf::cur_sig("crash_or_hang");
+		vf::add(W_LOC_CALLS[loc]);
+		if (!ascii) vf::add(W_LOC_NONASCII[loc]);
+		bool tr = trip(LOC[i].op, full);
+		bool inbuf = r.length() >= 0 && r.length() < r.cap() && (*r)[r.length()] == 0;
+		if (!tr && !inbuf) bad(std::string(LOC[i].op) + "_result", std::string(LOC[i].op) + "(" + show(full) + fmt(") in the %s locale returned a String of length %d in a buffer of %d", LOCNAME[loc], r.length(), r.cap()) + (r.length() >= 0 && r.length() < r.cap() ? " that is not terminated at its length" : ""));
+		if (tr || !inbuf) { int& nb = sigcount[std::string("#loc") + LOC[i].op]; if (++nb == 3) disabled_ops.insert(LOC[i].op); } // a conversion that left its buffers may have damaged the heap: confirm three times per worker, then stop calling it
+		else if (ascii) { if (SS(r) == full) vf::add(W_LOC_ASCII_IDENT); else vf::add(W_LOC_ASCII_OTHER); }
+		else if (r.length() > 0) vf::add(W_LOC_NONEMPTY[loc]);
+	}
+}
+
 // one byte-string case. raw: also the const char* conversion functions (only meaningful without NULs)
 static void check_bytes(const std::string& full, bool raw, bool distinct) {
 	begin_case((raw ? "b:" : "s:") + vf::hex(full));
@@ -419,27 +510,29 @@ static void check_bytes(const std::string& full, bool raw, bool distinct) {
 	if (!valid) cps.clear();
 	Feat ft = witnesses(full, valid, cps);
 	if (raw && nonul) check_raw(full, valid, cps);
+	g_rangefor = raw || vf::opt.thorough() || vf::opt.replay;
 	check_string(full, valid, cps, ft);
 }
 
 // ---------------------------------------------------------------- case-insensitive equality <=> equality of lower-cased forms (well-formed text)
-static void check_nocase(const std::string& a, const std::string& b, const String& A, const String& B, const std::string& la, const std::string& lb) {
+static int check_nocase(const std::string& a, const std::string& b, const String& A, const String& B, const std::string& la, const std::string& lb) { // -1: ASan, else: are the lower-cased forms equal
 	begin_case("nc:" + vf::hex(a) + "/" + vf::hex(b));
 	vf::add(C_EVAL); vf::add(C_DISTINCT);
 	bool ab, ba;
 	{ vfx::Flush f1(A), f2(B); ab = A.equalsNocase(B); ba = B.equalsNocase(A); }
-	if (trip("equalsNocase", a + "/" + b)) return;
+	if (trip("equalsNocase", a + "/" + b)) return -1;
 	bool expect = la == lb;
 	if (expect) { vf::add(W_NC_TRUE); if (a != b) vf::add(W_NC_TRUE_DISTINCT); } else vf::add(W_NC_FALSE);
 	if (ab != expect || ba != expect)
 		bad("nocase_mismatch", "x = " + show(a) + ", y = " + show(b) + fmt(": x.equalsNocase(y) = %d, y.equalsNocase(x) = %d, but lower(x) = ", (int)ab, (int)ba) + show(la) + " and lower(y) = " + show(lb));
+	return expect ? 1 : 0;
 }
-static void check_nocase_fresh(const std::string& a, const std::string& b) {
+static int check_nocase_fresh(const std::string& a, const std::string& b) {
 	begin_case("nc:" + vf::hex(a) + "/" + vf::hex(b));
 	String A = vfx::A(a), B = vfx::A(b);
 	String la = A.toLowerCase(), lb = B.toLowerCase();
-	if (trip("toLowerCase", a + "/" + b)) return;
-	check_nocase(a, b, A, B, SS(la), SS(lb));
+	if (trip("toLowerCase", a + "/" + b)) return -1;
+	return check_nocase(a, b, A, B, SS(la), SS(lb));
 }
 
 // ---------------------------------------------------------------- extension: UTF-16 unit strings and raw int arrays (memory safety; values when well-formed)
@@ -466,6 +559,15 @@ static void check_units(const std::vector<unsigned>& u) {
 	bool t = trip("utf16toUtf8", k);
 	if (!t && (r < 0 || (size_t)r > 4 * n || b8.p[r] != 0)) bad("utf16toUtf8_result", fmt("utf16toUtf8(%s) returned %d: not a terminated result inside 4n+1 bytes", k.c_str(), r));
 	else if (!t && wf && std::string(b8.p, r) != expect) bad("utf16toUtf8_value", "utf16toUtf8(" + k + ") = " + show(std::string(b8.p, r)) + ", standard encoding is " + show(expect));
+	if (!t && n >= 2 && n <= 8) // limited n: at most j characters of <= 4 bytes each (+ terminator)
+		for (size_t j = 1; j < n; j++) {
+			Out<char> bj(4 * j + 1);
+			int rj = utf16toUtf8(wi.p, bj.p, (int)j);
+			if (trip("utf16toUtf8", k)) break;
+			vf::add(W_LIMIT16_CUT_UNITS);
+			if (rj < 0 || (size_t)rj > 4 * j || bj.p[rj] != 0) { bad("utf16toUtf8_result", fmt("utf16toUtf8(%s, n=%d) returned %d: not a terminated result inside 4n+1 = %d bytes", k.c_str(), (int)j, rj, (int)(4 * j + 1))); break; }
+			if (wf && ((size_t)rj > expect.size() || memcmp(bj.p, expect.data(), rj) != 0)) { bad("utf16toUtf8_value", fmt("utf16toUtf8(%s, n=%d) = ", k.c_str(), (int)j) + show(std::string(bj.p, rj)) + ": not a prefix of the standard encoding " + show(expect)); break; }
+		}
 	String s1(wi.p);
 	if (!trip("wide_ctor", k)) {
 		if (s1.length() < 0 || s1.length() >= s1.cap()) bad("wide_ctor_result", "String(const wchar_t* " + k + fmt(") has length %d in a buffer of %d", s1.length(), s1.cap()));
@@ -559,6 +661,7 @@ static std::string idx_alpha(uint64_t idx, int len) { std::string s(len, 0); for
 static std::string seq8(const Cps& c) { std::string s; for (size_t i = 0; i < c.size(); i++) s += enc8(c[i]); return s; }
 static std::string padded(const std::string& b, size_t total) { return b.size() >= total ? b : std::string(total - b.size(), 'x') + b; }
 
+static std::vector<std::pair<std::string, std::string> > PYPAIRS; // from python: Unicode case pairs (read in the parent before the workers fork)
 static double phase_t0 = 0;
 static void phase_done(const char* name) { double t = vf::now_s(); vf::setinfo(std::string("wall_s.") + name, fmt("%.1f", t - phase_t0)); phase_t0 = t; }
 
@@ -597,6 +700,18 @@ static void crosscheck_python() {
 		if ((c == 1) != dec8(s, tmp)) die("reference strict decoder disagrees with python on " + vf::hex(s));
 		n++;
 	}
+	{ // section 4: every pair (c, f(c)) with f in lower/upper/title/casefold/swapcase and f(c) != c, as UTF-8 (input family for the case-insensitive clause)
+		unsigned char h[4];
+		if (fread(h, 1, 4, f) != 4) die("python reference stream too short (case pairs)");
+		unsigned np = h[0] | h[1] << 8 | h[2] << 16 | (unsigned)h[3] << 24;
+		if (np < 1000 || np > 100000) die("python reference: implausible number of case pairs");
+		for (unsigned i = 0; i < np; i++) {
+			std::string ab[2];
+			for (int k = 0; k < 2; k++) { int l = fgetc(f); if (l < 1 || l > 32) die("python reference: bad case-pair record"); ab[k].resize(l); if (fread(&ab[k][0], 1, l, f) != (size_t)l) die("python reference stream too short (case pairs)"); if (ab[k].find('\0') != std::string::npos || !dec8(ab[k], tmp)) die("python reference: case pair is not well-formed UTF-8"); }
+			PYPAIRS.push_back(std::make_pair(ab[0], ab[1]));
+		}
+		n += np;
+	}
 	if (fgetc(f) != EOF) die("python reference stream too long");
 	if (pclose(f) != 0) die("python reference failed");
 	vf::setinfo("reference_records_crosschecked_against_python", fmt("%llu", (unsigned long long)n));
@@ -606,6 +721,7 @@ static void run_case(const std::string& k) {
 	if (k == "selftest") selftest();
 	else if (k.compare(0, 2, "b:") == 0) check_bytes(vf::unhex(k.substr(2)), true, true);
 	else if (k.compare(0, 2, "s:") == 0) check_bytes(vf::unhex(k.substr(2)), false, true);
+	else if (k.compare(0, 3, "lc:") == 0 || k.compare(0, 3, "l8:") == 0) { int loc = k[1] == '8'; if (!set_loc(loc)) die("locale not available"); check_locale_bridge(vf::unhex(k.substr(3)), loc); set_loc(0); }
 	else if (k.compare(0, 3, "nc:") == 0) { size_t p = k.find('/'); check_nocase_fresh(vf::unhex(k.substr(3, p - 3)), vf::unhex(k.substr(p + 1))); }
 	else if (k.compare(0, 2, "w:") == 0 || k.compare(0, 2, "i:") == 0) {
 		std::vector<unsigned> u; std::vector<int> v;
@@ -630,6 +746,13 @@ int main(int argc, char** argv) {
 	W_PAIR16 = vf::counter("w.utf16_surrogate_pair"); W_DATAW_REALLOC = vf::counter("w.dataw_realloc_path_1024"); W_DATAW_MALLOC = vf::counter("w.dataw_heap_malloc_path"); W_DATAW_INLINE = vf::counter("w.dataw_from_inline");
 	W_COUNT_PRED = vf::counter("w.2byte_lead_directly_before_terminator"); W_LIMIT_CUT = vf::counter("w.limit_n_cuts_conversion");
 	W_SELFTEST = vf::counter("w.asan_selftest_trips"); W_W16_ILL = vf::counter("w.illformed_utf16_units"); W_I32_NONSCALAR = vf::counter("w.nonscalar_utf32_input");
+	W_LIMIT16_CUT = vf::counter("w.utf16toUtf8_limit_n_cuts_text"); W_LIMIT16_CUT_UNITS = vf::counter("w.utf16toUtf8_limit_n_on_unit_arrays"); W_LIMIT32_CUT = vf::counter("w.utf32toUtf8_limit_1_lt_n_lt_count");
+	W_N_BEYOND = vf::counter("w.decoder_limit_n_beyond_terminator"); W_DATAW_INTACT = vf::counter("w.dataw_text_intact"); W_DATAW_INTACT4 = vf::counter("w.dataw_text_intact_len_multiple_of_4");
+	W_RANGEFOR = vf::counter("w.rangefor_nonempty"); W_RANGEFOR_EMPTY = vf::counter("w.rangefor_empty");
+	W_LOC_CALLS[0] = vf::counter("w.locale_bridge_calls_C"); W_LOC_CALLS[1] = vf::counter("w.locale_bridge_calls_C_UTF8"); W_LOC_NONASCII[0] = vf::counter("w.locale_bridge_non_ascii_input_C"); W_LOC_NONASCII[1] = vf::counter("w.locale_bridge_non_ascii_input_C_UTF8");
+	W_LOC_NONEMPTY[0] = vf::counter("info.locale_bridge_non_ascii_nonempty_result_C"); W_LOC_NONEMPTY[1] = vf::counter("w.locale_bridge_non_ascii_nonempty_result_C_UTF8"); W_LOC_ASCII_IDENT = vf::counter("w.locale_bridge_ascii_unchanged"); W_LOC_ASCII_OTHER = vf::counter("info.locale_bridge_ascii_changed");
+	W_NC_ABOVE = vf::counter("w.nocase_pair_with_code_above_2099"); W_NC_ABOVE_EQ = vf::counter("info.nocase_pair_above_2099_expected_equal"); W_NC_PY = vf::counter("w.nocase_unicode_case_pairs"); W_NC_PY_EQ = vf::counter("w.nocase_unicode_case_pairs_expected_equal");
+	W_MID = vf::counter("w.multibyte_between_ascii_runs");
 	signal(SIGVTALRM, SIG_DFL);
 	if (vf::opt.replay) { vf::parallel(1, [&](uint64_t) { arm_watchdog(); run_case(vf::opt.kase); }); return vf::finish(); }
 	const bool T = vf::opt.thorough();
@@ -698,7 +821,9 @@ int main(int argc, char** argv) {
 			arm_watchdog();
 			for (uint64_t i = blk * CH; i < (blk + 1) * CH && i < N; i++) {
 				std::string b = idx_bytes3(i);
+				g_skip_nbeyond3 = !T;
 				check_bytes(b, true, true);
+				g_skip_nbeyond3 = false;
 				check_bytes(padded(b, 19), false, false);
 				if (T) { check_bytes(padded(b, 15), false, false); check_bytes(padded(b, 16), false, false); }
 			}
@@ -753,6 +878,14 @@ int main(int argc, char** argv) {
 		}, 2);
 	}
 	phase_done("h_sizing");
+	// (i) a multibyte character between two ASCII runs: x^p + c + x^q for every boundary code point c and all p, q in 1..16 (p or q = 0 is family (h))
+	vf::parallel((uint64_t)NBND * 16, [&](uint64_t i) {
+		if (stop_for_deadline()) return;
+		arm_watchdog();
+		std::string e1 = enc8(BND[i % NBND]); int p = (int)(i / NBND) + 1;
+		for (int q = 1; q <= 16; q++) { vf::add(W_MID); check_bytes(std::string(p, 'x') + e1 + std::string(q, 'x'), true, true); }
+	}, 4);
+	phase_done("i_mid");
 	// (f) case-insensitive equality <=> equal lower-cased forms: all ordered pairs of code points 1..2099 (every 1- and 2-byte code point and the
 	//     table cut-over), and all pairs of strings of <= 2 (thorough: <= 2 against <= 3) code points over the case alphabet
 	{
@@ -787,6 +920,87 @@ int main(int argc, char** argv) {
 		}, 2);
 	}
 	phase_done("f_nocase");
+	// (j) the same clause above the case tables: every scalar c against c + d for the offsets d at which Unicode keeps case pairs (both orders are evaluated, so
+	//     c - d is covered from the other side; pairs with both codes below 2100 are family (f)), and every Unicode case pair python knows, multi-character mappings included
+	{
+		static const int DQ[] = { 1, 32, 40, 48, 80, 0x10000 };
+		static const int DT[] = { 1, 8, 16, 26, 32, 34, 40, 48, 64, 80, 0xBC0, 0x1C60, 0x97D0, 0x10000 };
+		const int* D = T ? DT : DQ; const int ND = T ? (int)(sizeof DT / sizeof *DT) : (int)(sizeof DQ / sizeof *DQ);
+		vf::parallel(0x110000 / 2048, [&](uint64_t blk) {
+			if (stop_for_deadline()) return;
+			arm_watchdog();
+			for (int cp = (int)blk * 2048; cp < (int)(blk + 1) * 2048; cp++) {
+				if (cp == 0 || (cp >= 0xD800 && cp <= 0xDFFF)) continue;
+				std::string a = enc8(cp);
+				begin_case("nc:" + vf::hex(a) + "/" + vf::hex(a));
+				String A = vfx::A(a); String lA = A.toLowerCase();
+				if (trip("toLowerCase", a)) continue;
+				std::string la = SS(lA);
+				for (int k = 0; k < ND; k++) {
+					long long d = (long long)cp + D[k];
+					if (!is_scalar(d) || d < 2100) continue;
+					std::string b = enc8((int)d);
+					begin_case("nc:" + vf::hex(a) + "/" + vf::hex(b));
+					String B = vfx::A(b); String lB = B.toLowerCase();
+					if (trip("toLowerCase", b)) continue;
+					int r = check_nocase(a, b, A, B, la, SS(lB));
+					vf::add(W_NC_ABOVE); if (r == 1) vf::add(W_NC_ABOVE_EQ);
+				}
+			}
+		});
+		vf::parallel((PYPAIRS.size() + 63) / 64, [&](uint64_t blk) {
+			if (stop_for_deadline()) return;
+			arm_watchdog();
+			for (size_t i = blk * 64; i < (blk + 1) * 64 && i < PYPAIRS.size(); i++) {
+				int r = check_nocase_fresh(PYPAIRS[i].first, PYPAIRS[i].second);
+				vf::add(W_NC_PY); if (r == 1) vf::add(W_NC_PY_EQ);
+			}
+		});
+	}
+	phase_done("j_nocase_above_table");
+	// (k) the locale bridge, in the "C" locale and (when the platform has it) in "C.UTF-8": every byte string of length <= 2 and alphabet^3 (thorough: every byte string of length <= 3), every scalar value left-padded
+	//     to 19 (heap block of exactly 20; thorough: also alone), every alphabet tail of length <= 2 behind paddings 4..44 and 1017..1024, the shapes of family (i)
+	{
+		bool have8 = set_loc(1); set_loc(0);
+		vf::setinfo("locale_C_UTF8_available", have8 ? "true" : "false");
+		for (int loc = 0; loc < (have8 ? 2 : 1); loc++) {
+			const uint64_t N2 = 1 + 256 + 65536, N = N2 + (T ? 16777216 : 4096), CH = 4096; // quick: length 3 over the boundary alphabet only
+			vf::parallel((N + CH - 1) / CH, [&](uint64_t blk) {
+				if (stop_for_deadline()) return;
+				arm_watchdog(); set_loc(loc);
+				for (uint64_t i = blk * CH; i < (blk + 1) * CH && i < N; i++) check_locale_bridge(T || i < N2 ? idx_bytes3(i) : idx_alpha(i - N2, 3), loc);
+				set_loc(0);
+			});
+			vf::parallel(0x110000 / 4096, [&](uint64_t blk) {
+				if (stop_for_deadline()) return;
+				arm_watchdog(); set_loc(loc);
+				for (int cp = (int)blk * 4096; cp < (int)(blk + 1) * 4096; cp++) {
+					if (cp == 0 || (cp >= 0xD800 && cp <= 0xDFFF)) continue;
+					std::string e = enc8(cp);
+					if (T && e.size() > 3) check_locale_bridge(e, loc); // thorough: alone as well (shorter ones are in the byte-string block above); quick: heap instance only
+					check_locale_bridge(padded(e, 19), loc);
+				}
+				set_loc(0);
+			});
+			vf::parallel(1 + 16 + 256, [&](uint64_t ti) {
+				if (stop_for_deadline()) return;
+				arm_watchdog(); set_loc(loc);
+				int len = ti < 1 ? 0 : ti < 17 ? 1 : 2;
+				std::string tail = idx_alpha(ti - (len == 0 ? 0 : len == 1 ? 1 : 17), len);
+				for (int p = 4; p <= 44; p++) check_locale_bridge(std::string(p, 'x') + tail, loc);
+				for (int p = 1017; p <= 1024; p++) check_locale_bridge(std::string(p, 'x') + tail, loc);
+				set_loc(0);
+			}, 8);
+			vf::parallel((uint64_t)NBND * 16, [&](uint64_t i) {
+				if (stop_for_deadline()) return;
+				arm_watchdog(); set_loc(loc);
+				std::string e1 = enc8(BND[i % NBND]); int p = (int)(i / NBND) + 1;
+				for (int q = 1; q <= 16; q++) check_locale_bridge(std::string(p, 'x') + e1 + std::string(q, 'x'), loc);
+				set_loc(0);
+			}, 4);
+		}
+	}
+	phase_done("k_locale_bridge");
 	// (g) extension (memory safety of the wide / code-point entry points on arbitrary units; values when well-formed)
 	{
 		const int NW = sizeof W16AL / sizeof *W16AL, NI = sizeof I32AL / sizeof *I32AL;
@@ -813,6 +1027,8 @@ int main(int argc, char** argv) {
 	vf::sample("b:e0c2  and  s:78787878787878787878787878787878e0c2 (same bytes ending a 20-byte heap block): every conversion, count, chars, iteration, toUpperCase/toLowerCase, equalsNocase, dataw under ASan");
 	vf::sample("b:c200 41: String(ptr,3) with an embedded NUL after a 2-byte lead");
 	vf::sample("nc:c4b0/69  (U+0130 vs 'i'): x.equalsNocase(y) == (lower(x) == lower(y)), both orders; all 2099^2 code-point pairs and " + fmt("%d", (int)(NCASEAL + NCASEAL * NCASEAL)) + "^2 short strings");
+	vf::sample("nc:e1b880/e1b881 (U+1E00 vs U+1E01, above the case tables): equalsNocase must say what asl's own toLowerCase says; every scalar x offsets of Unicode case pairs, " + fmt("%d", (int)PYPAIRS.size()) + " python case pairs");
+	vf::sample("lc:80 / l8:7878787878787878787878787878787878c3a9: localToUtf8, fromLocal, utf8ToLocal, toLocal in the C and C.UTF-8 locales: ASan-clean, result String terminated inside its buffer");
 	vf::sample("w:D800,41 / i:-1,1114112: lone surrogate units and non-scalar ints through utf16toUtf8, String(const wchar_t*), utf32toUtf8, fromCodes");
 	return vf::finish();
 }
